@@ -458,12 +458,25 @@ func raceSig(block string) string {
 	var tops []string
 	sections := regexp.MustCompile(`(?m)^(?:Write|Read|Previous write|Previous read)[^\n]*\n((?:  .*\n|\s*\n)*)`).FindAllStringSubmatch(block, -1)
 	for _, s := range sections {
-		f := reRaftFrame.FindStringSubmatch(s[1])
-		if f != nil {
-			tops = append(tops, f[1])
-		} else {
-			tops = append(tops, "?")
+		// the function that makes the access: the first frame that is not in
+		// the runtime (a map access shows as runtime.mapassign called from
+		// the function that races). A hook callback of the harness that races
+		// with the harness is the harness's own race, whoever called the hook.
+		top := "?"
+		for _, line := range strings.Split(s[1], "\n") {
+			if !strings.HasPrefix(line, "  ") || strings.HasPrefix(line, "   ") {
+				continue // not a function line (file lines are indented deeper)
+			}
+			fn := strings.TrimSpace(line)
+			if strings.HasPrefix(fn, "runtime.") || strings.HasPrefix(fn, "sync.") || strings.HasPrefix(fn, "sync/atomic.") || strings.HasPrefix(fn, "internal/") {
+				continue
+			}
+			if f := reRaftFrame.FindStringSubmatch(fn); f != nil {
+				top = f[1]
+			}
+			break
 		}
+		tops = append(tops, top)
 		if len(tops) == 2 {
 			break
 		}
